@@ -1,6 +1,7 @@
 """Running the real bandit (from /repo) in-process and collecting the observables."""
 import io
 import logging
+import re
 import os
 import shutil
 import sys
@@ -59,9 +60,12 @@ def cleanup():
     _scratch = None
 
 
+_ADDR = re.compile(r"<ast\.\w+ object at 0x[0-9a-f]+>")
+
+
 def issue_dict(i):
     return {"test_id": i.test_id, "test": i.test, "sev": i.severity, "conf": i.confidence,
-            "cwe": i.cwe.id, "text": i.text, "lineno": i.lineno, "linerange": list(i.linerange),
+            "cwe": i.cwe.id, "text": _ADDR.sub("<AST-OBJECT>", i.text), "raw_text": i.text, "lineno": i.lineno, "linerange": list(i.linerange),
             "col": i.col_offset, "ecol": i.end_col_offset, "fname": i.fname}
 
 
